@@ -4080,6 +4080,12 @@ class UDFFileEntry:
         if self.icb_tag.file_type != 4:
             raise pycdlibexception.PyCdlibInvalidInput('Can only add a UDF File Identifier to a directory')
 
+        if not new_fi_desc.isparent:
+            new_name = new_fi_desc.fi.decode(new_fi_desc.encoding)
+            for fi_desc in self.fi_descs:
+                if not fi_desc.isparent and fi_desc.fi.decode(fi_desc.encoding) == new_name:
+                    raise pycdlibexception.PyCdlibInvalidInput('Failed adding duplicate name to parent')
+
         self.fi_descs.append(new_fi_desc)
 
         num_bytes_to_add = UDFFileIdentifierDescriptor.length(len(new_fi_desc.fi))
